@@ -1,37 +1,11 @@
-// counterexamples for harness c12::c12_partition_opt_small_n0 (property C12); replay: ./check C12 --replay <this file>
+// counterexamples for harness c12::c12_quantile_single_f64_n3 (property C12); replay: ./check C12 --replay <this file>
 // features: c12
 #![allow(unused_imports)]
 use crate::c12::*;
 
-/// Test generated for harness `c12::c12_partition_opt_small_n0` 
+/// Test generated for harness `c12::c12_quantile_single_f64_n3` 
 ///
-/// Check for `assertion`: ""partition yields exactly k+1 entries""
-///
-/// # Warning
-///
-/// Concrete playback tests combined with stubs or contracts is highly
-/// experimental, and subject to change.
-///
-/// The original harness has stubs which are not applied to this test.
-/// This may cause a mismatch of non-deterministic values if the stub
-/// creates any non-deterministic value.
-/// The execution path may also differ, which can be used to refine the stub
-/// logic.
-
-#[test]
-fn kani_concrete_playback_c12_partition_opt_small_n0_5856647107013575463() {
-    let concrete_vals: Vec<Vec<u8>> = vec![
-        // 1
-        vec![1],
-        // 1
-        vec![1],
-    ];
-    kani::concrete_playback_run(concrete_vals, c12_partition_opt_small_n0);
-}
-
-/// Test generated for harness `c12::c12_partition_opt_small_n0` 
-///
-/// Check for `cover`: "largest elements requested"
+/// Check for `assertion`: ""quantile is null only when there is no valid element""
 ///
 /// # Warning
 ///
@@ -45,12 +19,54 @@ fn kani_concrete_playback_c12_partition_opt_small_n0_5856647107013575463() {
 /// logic.
 
 #[test]
-fn kani_concrete_playback_c12_partition_opt_small_n0_4822601389068710232() {
+fn kani_concrete_playback_c12_quantile_single_f64_n3_6858810562993270764() {
     let concrete_vals: Vec<Vec<u8>> = vec![
+        // 0
+        vec![0],
         // 0
         vec![0],
         // 1
         vec![1],
+        // 1
+        vec![1, 0, 0, 0],
+        // 4ul
+        vec![4, 0, 0, 0, 0, 0, 0, 0],
+        // 3
+        vec![3],
     ];
-    kani::concrete_playback_run(concrete_vals, c12_partition_opt_small_n0);
+    kani::concrete_playback_run(concrete_vals, c12_quantile_single_f64_n3);
+}
+
+/// Test generated for harness `c12::c12_quantile_single_f64_n3` 
+///
+/// Check for `cover`: "q above one half"
+///
+/// # Warning
+///
+/// Concrete playback tests combined with stubs or contracts is highly
+/// experimental, and subject to change.
+///
+/// The original harness has stubs which are not applied to this test.
+/// This may cause a mismatch of non-deterministic values if the stub
+/// creates any non-deterministic value.
+/// The execution path may also differ, which can be used to refine the stub
+/// logic.
+
+#[test]
+fn kani_concrete_playback_c12_quantile_single_f64_n3_17708772735197724972() {
+    let concrete_vals: Vec<Vec<u8>> = vec![
+        // 1
+        vec![1],
+        // 2
+        vec![2, 0, 0, 0],
+        // 0
+        vec![0],
+        // 0
+        vec![0],
+        // 6ul
+        vec![6, 0, 0, 0, 0, 0, 0, 0],
+        // 1
+        vec![1],
+    ];
+    kani::concrete_playback_run(concrete_vals, c12_quantile_single_f64_n3);
 }
